@@ -9,6 +9,12 @@
 typedef s16 wide_s8;   typedef s32 wide_s16;  typedef s64 wide_s32;  typedef s128 wide_s64;
 typedef u16 wide_u8;   typedef u32 wide_u16;  typedef u64 wide_u32;  typedef u128 wide_u64;
 
+/* conversions: the C cast, or -- in the contract-only lemmas of C13 (-DSPEC_UF) -- an uninterpreted symbol */
+#ifdef SPEC_UF
+#define SPECCONV(UFN, E, A) UFN(A)
+#else
+#define SPECCONV(UFN, E, A) (E)
+#endif
 #define SPEC_MIN_s(W) ((u##W)((u##W)1 << (W - 1)))
 #define SPEC_MAX_s(W) ((u##W)(SPEC_MIN_s(W) - 1))
 #define SPEC_MAX_u(W) ((u##W)~(u##W)0)
